@@ -355,6 +355,14 @@ let dispatch (op : string) (t : toks) : string =
       (match telnet_server (get_bytes t) with
        | Accepted (c, r) -> "accepted " ^ out_bytes c ^ " " ^ out_bytes r
        | AcceptErr n -> "error" ^ string_of_int (int_of_nat n))
+  | "statusok" ->
+      let sending = get_bool t in
+      let msgs = get_list t (fun t -> let m = n_of_int (get_int t) in let tot = z_of_int (get_int t) in (m, tot)) in
+      let reps = get_list t (fun t ->
+        let s = get_bool t in let m = n_of_int (get_int t) in let tr = z_of_int (get_int t) in
+        let tot = z_of_int (get_int t) in let d = get_bool t in
+        { r_sending = s; r_mid = m; r_transferred = tr; r_total = tot; r_done = d }) in
+      out_bool (session_ok sending msgs reps)
   | "agwreads" ->
       let frames = get_list t get_bytes in let sizes = List.map nat_of_int (get_list t get_int) in
       out_list out_bytes (conn_reads [] frames sizes)
